@@ -124,6 +124,18 @@ fn c09_advance_to_lands_on_first_geq() {
   advance_case(1);
 }
 
+//@ like: c09_advance_to_lands_on_first_geq
+//@ tier: thorough
+//@ symbolic: as c09_advance_to_lands_on_first_geq from the start positions 2 and 3 (the last posting)
+//@ bounds: 4 postings, start positions 2 and 3
+#[kani::proof]
+#[kani::unwind(7)]
+#[kani::stub(crate::query::bm25::bm25, bm25_surrogate)]
+fn c09_advance_to_from_late_positions() {
+  advance_case(2);
+  advance_case(3);
+}
+
 fn skip_case(block: usize) {
   let (d, tf, entries) = any_postings4();
   let target: DocId = kani::any();
